@@ -171,6 +171,18 @@ def validatePath (s : Str) : Except PErr Str :=
 /-- `storageutil.ValidatePrefix`. -/
 def validatePrefix (s : Str) : Except PErr Str := normalizeAndValidate s
 
+/-- `storagearchive.unmapArchivePath` (matcher passed as a Boolean function):
+    `.error` = reject the archive, `.ok none` = skip the entry, `.ok (some p)` = write to `p`. -/
+def unmapArchivePath (name : Str) (stripCount : Nat) (matcher : Str → Bool) : Except PErr (Option Str) :=
+  if name = [] then .error .other
+  else match normalizeAndValidate name with
+    | .error e => .error e
+    | .ok full =>
+      if full = dot then .ok none
+      else match stripComponents full stripCount with
+        | none => .ok none
+        | some p => if matcher p then .ok (some p) else .ok none
+
 /-- A proper name component: non-empty, not "." or "..", no separator. -/
 def Proper (c : Comp) : Prop := c ≠ [] ∧ c ≠ dot ∧ c ≠ dotdot ∧ '/' ∉ c
 
